@@ -358,6 +358,7 @@ func c12(c *core.Ctx) {
 				f := call.Call.StaticCallee()
 				return f != nil && f.Pkg != nil && f.Pkg.Pkg.Path() == "time"
 			})
+			swapped := false
 			fromAt := ssax.AnyIn(wset, func(v ssa.Value) bool {
 				call, ok := v.(*ssa.Call)
 				if !ok {
@@ -367,14 +368,22 @@ func c12(c *core.Ctx) {
 				if n != "(time.Time).Sub" && n != "time.Since" {
 					return false
 				}
-				for _, a := range call.Call.Args {
-					if ssax.AnyIn(ssax.Backward(a), ssax.LoadOfField("persistence/queue.Elem.At")) {
-						return true
+				// now.Sub(at): the enqueue time is what is subtracted (the argument), the receiver is the
+				// current time; time.Since(at) has a single argument
+				args := call.Call.Args
+				at := args[len(args)-1]
+				if !ssax.AnyIn(ssax.Backward(at), ssax.LoadOfField("persistence/queue.Elem.At")) {
+					if len(args) == 2 && ssax.AnyIn(ssax.Backward(args[0]), ssax.LoadOfField("persistence/queue.Elem.At")) {
+						swapped = true
 					}
+					return false
 				}
-				return false
+				return true
 			})
-			c.Check(fromAt, "C12.R3", key+"|waited-since-At", ipos(c, st), "waited = time since the element was enqueued", "the time subtracted is not the time elapsed since the element was enqueued (Elem.At)")
+			if swapped {
+				c.Violation("C12.R3", key+"|waited-since-At", ipos(c, st), "the waiting time is computed as enqueue-time.Sub(now) (operands swapped): it is never positive, so the original interval is forwarded however long the message waited")
+			}
+			c.Check(fromAt || swapped, "C12.R3", key+"|waited-since-At-source", ipos(c, st), "waited = time since the element was enqueued", "the time subtracted is not the time elapsed since the element was enqueued (Elem.At)")
 			for v := range wset {
 				if call, ok := v.(*ssa.Call); ok && ssax.ResolveCallee(&call.Call).Name == "time.Now" {
 					nows = append(nows, call)
